@@ -706,7 +706,13 @@ class ErrorConditions(Sub):
         pos = next(i for i in range(n) if slot_code(conds[i]))
         before = next((i for i in range(pos) if truthy(conds[i])), None)
         also = None if before is None else ['value', SENT_IFS[0][before]]
-        return self.verdict(env, 'IFS/' + slot_kind(conds[pos]), formula, o, [slot_code(conds[pos])], also,
+        codes = [slot_code(conds[pos])]
+        if before is not None and '$lit' not in conds[pos]:
+            # the statement: IFS is "the value paired with the FIRST true condition" - a condition after it is not a
+            # tested condition, so its error must not surface (an error literal still aborts the whole formula)
+            codes = []
+            env.nt()
+        return self.verdict(env, 'IFS/' + slot_kind(conds[pos]), formula, o, codes, also,
                             detail=' with conditions %s' % jkey(conds))
 
     def k_sw(self, env, s, cs, dflt):
